@@ -730,7 +730,7 @@ fn aim_span(seed: u64, policy: &str) -> Script {
         }
         if live.rng.chance(40) {
             // start the spanning entry at a chosen distance from the end of the file
-            let gap = [0usize, 7, 8, 20, 40_000][live.rng.below(5) as usize];
+            let gap = [0usize, 3, 6, 7, 8, 20, 40_000][live.rng.below(7) as usize];
             let q = live.rng.below(nq as u64) as usize;
             live.fill_to(q, gap, true);
             if let Some(last) = live.last_position(q) {
